@@ -319,7 +319,11 @@ def gen_cxx(md, policy=0, introspect=False, frontend="functor"):
         needs_defer = any(r["act"] == "defer" for r in all_rows(m))
         if needs_defer:
             w("    typedef int activate_deferred_events;")
-        w("    template <class E, class F> void on_entry(E const& e, F& f) { H::cb(\"MN\", path(), 0, e, f); }")
+        # front-end data that is not trivially movable (C15): one journal entry per entry of the machine
+        w("#ifdef H_OBJDATA")
+        w("    std::vector<int> h_journal; std::string h_label = \"%s-label-long-enough-to-live-on-the-heap\";" % name)
+        w("#endif")
+        w("    template <class E, class F> void on_entry(E const& e, F& f) { H_JOURNAL; H::cb(\"MN\", path(), 0, e, f); }")
         w("    template <class E, class F> void on_exit(E const& e, F& f) { H::cb(\"MX\", path(), 0, e, f); }")
         w("    template <class F, class E> void no_transition(E const& e, F& f, int s) { H::cb(\"NT\", path(), s, e, f); }")
         w("    template <class F, class E> void exception_caught(E const& e, F& f, std::exception&) { H::cb(\"EC\", path(), 0, e, f); }")
@@ -395,6 +399,9 @@ def gen_cxx(md, policy=0, introspect=False, frontend="functor"):
                 raise ValueError(k)
             if st.get("explicit"):
                 base = "msm::front::state<>, msm::front::explicit_entry<%d>" % st["zone"]
+            if st.get("explicit_auto"):
+                # region index left to the library's inference (back / back11: find_region_id<-1> walks the table)
+                base = "msm::front::state<>, msm::front::explicit_entry<>"
             w("    struct S_%s_%d : %s {" % (name, i, base))
             if st["defers"]:
                 w("      typedef mpl::vector<%s> deferred_events;" % ", ".join("Ev%d" % e for e in st["defers"]))
@@ -537,12 +544,17 @@ def gen_cxx(md, policy=0, introspect=False, frontend="functor"):
     for path, m in sorted(machines, key=lambda pm: -len(pm[0])):
         name = pname(path)
         w("  static void data_%s(M_%s& f, const char* tag) {" % (name, name))
+        w("#ifdef H_OBJDATA")
+        w("    { const F_%s& fe = f; std::printf(\"#FDATA %%s %s [\", tag); for (int x : fe.h_journal) std::printf(\" %%d\", x); std::printf(\" ] %%s\\n\", fe.h_label.c_str()); }" % (name, pstr(path)))
+        w("#endif")
         w("#ifdef H_SERIALIZE")
         w("    std::printf(\"#DATA %%s %s [\", tag);" % pstr(path))
         for i, st in enumerate(m["states"]):
             if st["sub"] is None:
                 w("    std::printf(\" %%d\", f.template get_state<%s&>().h_hits);" % id_type(path, i, st))
         w("    std::printf(\" ]\\n\");")
+        w("#endif")
+        w("#if defined(H_SERIALIZE) || defined(H_OBJDATA)")
         for i, st in enumerate(m["states"]):
             if st["sub"] is not None:
                 sub = pname(path + (i,))
